@@ -56,6 +56,7 @@ def common_rules(t, hits, fname):
     sub('end', r'(\w+) != _master_map \. end \( \)', r'\1 != VEND')
     sub('end', r'(\w+) == _master_map \. end \( \)', r'\1 == VEND')
     sub('second', r'_master_pointer = (\w+) -> second ;', r'_master_pointer = _master_map_val [ \1 ] ;')
+    sub('second', r'\b(it|iter) -> second\b', r'_master_map_val [ \1 ]')     # any other use of a registry iterator's mapped object (read or write)
     sub('map-loop', r'for \( ' + MT + r' :: (?:const_)?iterator (\w+) = this -> _master_map \. begin \( \) ; \1 != this -> _master_map \. end \( \) ; \1 \+\+ \)',
         r'for ( int \1 = _master_map_begin ( ) ; \1 != VEND ; \1 = _master_map_next ( \1 ) )')
     sub('vec-loop', r'for \( typename ' + VT + r' :: const_iterator it = anim \. begin \( \) ; it != anim \. end \( \) ; \+\+ it \)',
